@@ -597,7 +597,16 @@ func (h *hand) query(k int) {
 	}
 	_, pan := safely(func() error {
 		g := h.g
-		switch k % 4 {
+		switch k % 5 {
+		case 4:
+			// (Resume() is NOT a query: called directly at RoundStarted it re-enters the event chain and passes the turn on without an
+			// action — exported plumbing like EmitEvent / SetCurrentPlayer, outside the alphabet, O3)
+			for _, p := range g.GetPlayers() {
+				_ = p.CheckAction("call")
+			}
+			_ = gs.GetPlayer(0)
+			_ = gs.HasAction(0, "fold")
+			_ = gs.HasPosition(0, "dealer")
 		case 0:
 			_ = g.GetEvent()
 			_, _ = g.GetStateJSON()
@@ -628,7 +637,7 @@ func (h *hand) query(k int) {
 		return nil
 	})
 	os.Stdout = stdout
-	line := fmt.Sprintf("query %d", k%4)
+	line := fmt.Sprintf("query %d", k%5)
 	if pan {
 		h.dead = true
 		h.o.Emit(line, "st err=panic")
